@@ -62,7 +62,7 @@ def one(patch):
 
 def main():
     patches = [os.path.abspath(x) for x in sys.argv[1:]] or sorted(glob.glob(os.path.join(VERIF, "selftest", "benign", "*.patch")))
-    with Pool(8) as pool:
+    with Pool(16) as pool:
         bad = 0
         for name, out in pool.imap_unordered(one, patches):
             if out:
